@@ -368,18 +368,10 @@ def run(F, rep, tier):
         adt = F.adts.get('core::FreezeEnv')
         names = [f['name'] for f in adt['variants'][0]['fields']]
         ops = dict(zip(names, s_[2][5]))
-        pnames = [v for v in (F.fns[c.target].get('param_names') or [])]
 
         def param_index(op):
             og = origins(cb_, op, passthru=('clone',))
-            idx = set()
-            for o in og:
-                if o[0] == 'param':
-                    # parameters are locals 1..n in order
-                    for li, nm in enumerate(cb_.raw.get('vars', {}).values() if isinstance(cb_.raw.get('vars'), dict) else []):
-                        pass
-                    idx.add(o[1])
-            return og, idx
+            return og, {o[1] for o in og if o[0] == 'param'}
         w_og, w_par = param_index(ops.get('warn'))
         e_og, e_par = param_index(ops.get('env'))
         bnd = origins(cb_, ops.get('bound')) if ops.get('bound') else set()
